@@ -649,3 +649,20 @@ mod test {
         Ok(())
     }
 }
+
+/// Verification hooks, compiled only with `--cfg turmoil_verif`.
+#[allow(unexpected_cfgs)]
+mod verif_hooks {
+    #[cfg(turmoil_verif)]
+    impl super::Host {
+        /// Sizes of the UDP bind table, the TCP listener table and the TCP
+        /// stream-socket table of this host (read-only).
+        pub(crate) fn verif_socket_counts(&self) -> (usize, usize, usize) {
+            (
+                self.udp.binds.len(),
+                self.tcp.binds.len(),
+                self.tcp.sockets.len(),
+            )
+        }
+    }
+}
